@@ -22,7 +22,7 @@ impl HashSet<String> {
     #[verifier::external_body]
     pub fn contains(&self, k: &str) -> (r: bool) ensures r == self@.contains(k@) { unimplemented!() }
     #[verifier::external_body]
-    pub fn insert(&mut self, k: String) -> (r: bool) ensures final(self)@ == old(self)@.insert(k@) { unimplemented!() }
+    pub fn insert(&mut self, k: String) -> (r: bool) ensures final(self)@ == old(self)@.insert(k@), r == !old(self)@.contains(k@) { unimplemented!() }
 }
 impl Clone for HashSet<String> {
     #[verifier::external_body]
